@@ -27,11 +27,11 @@ def make_runs(run):
         if k % 4 == 3:
             # copies (and mirror-image decoys) far from the origin, patterns whose only relabelling / look-alike is a reflection
             pat, big, flavor = ["mirrorsym5", "ch2f2", "chiral5", "weakchiral4"][(k // 4) % 4], True, "decoys"
-        p = RG.make_problem(run.rng, k, repl_mode=mode, flavor=flavor, with_terms=False, pattern=pat, big=big, cellkind=(({5: "rot-ortho", 10: "mono-xy"}.get(k % 11)) if big is None else None))
+        p = RG.make_problem(run.rng, k, repl_mode=mode, flavor=flavor, with_terms=False, pattern=pat, big=big, cellkind=(({3: "upper", 5: "rot-ortho", 10: "mono-xy"}.get(k % 11)) if big is None else None))
         k += 1
         if p is None:
             continue
-        runs.append(dict(p=p, frac=(Fraction(1, 2) if k % 5 == 1 else Fraction(1)), replace_all=(k % 3 == 0), ignore=False, seed=run.rng.randrange(1 << 30), parts=("outcome",),
+        runs.append(dict(p=p, frac=(Fraction(1, 2) if k % 5 in (1, 3) else Fraction(1)), replace_all=(k % 3 == 0), ignore=False, seed=run.rng.randrange(1 << 30), parts=("outcome",),
                          kind="planted", joint=(pat in UNIQUE_POSE), replica2=(k % 3 == 0)))
     return runs
 
